@@ -1188,7 +1188,7 @@ func procStart(kind string, args ...string) *e1Proc {
 func runC16(c *vf.Ctx) {
 	thorough := c.Tier == "thorough"
 	if thorough {
-		c.SetBudget(40 * 60 * 1e9)
+		c.SetBudget(70 * 60 * 1e9)
 	} else {
 		c.SetBudget(12 * 60 * 1e9)
 	}
